@@ -185,12 +185,16 @@ func vhConvForm(k int, base Stack, cb Condition) (in any, wantS, wantC bool) {
 	case 22:
 		var ps *Stack
 		in = ps
+	case 23: // the zero native values: no more usable than their alias counterparts (8, 9)
+		in = Stack{}
+	case 24:
+		in = Condition{}
 	}
 	return
 }
 
 // vhConvForms is the number of forms vhConvForm knows.
-const vhConvForms = 23
+const vhConvForms = 25
 
 // p: form [, an earlier form converted first: a conversion's verdict depends
 // on its argument alone, never on what was converted before]
